@@ -289,6 +289,7 @@ class BalancingLearner(BaseLearner):
         index, x = x
         self._ask_cache.pop(index, None)
         self._loss.pop(index, None)
+        self._pending_loss.pop(index, None)
         self.learners[index].tell_pending(x)
 
     def _losses(self, real: bool = True) -> list[float]:
@@ -391,6 +392,7 @@ class BalancingLearner(BaseLearner):
         """Remove uncomputed data from the learners."""
         for learner in self.learners:
             learner.remove_unfinished()
+        self._ask_cache, self._loss, self._pending_loss = {}, {}, {}
 
     @classmethod
     def from_product(
